@@ -58,6 +58,11 @@ func setupBase(b *base) sdk.Context {
 			panic(r.String())
 		}
 	}
+	// u1 also holds five units of usdt in eth's bridge denomination (what a deposit leaves before it is converted to
+	// the base denom; balances of this kind exist from earlier versions)
+	if err := scen.Keeper(w, "eth").DepositBridgeToken(ctx, sdk.NewInt64Coin(b.toks["usdt"].Bridge["eth"], 5), w.A("u1").Acc()); err != nil {
+		panic(err)
+	}
 	b.holders = []common.Address{w.A("u1").Hex(), w.A("u2").Hex(), w.A("rel").Hex(), erc20Module(), cctypes.GetAddress(), b.toks["FX"].ERC20}
 	for _, t := range b.toks {
 		if t.Name != "FX" {
